@@ -11,7 +11,7 @@ import (
 )
 
 func init() {
-	register("C03", "Decides the structural part of path shape for both engines and all first/last TTL pairs: (R03.1) every store into the engine's slot table writes a ReceiveProbe result that passed validateProbe (or travelled the retryable edge, on which every module driver returns a nil response by C01 R01.7) at the index probe.TTL of that same value; (R03.2) the table length is int(MaxTTL)+1 computed in int; (R03.3) validate() precedes everything and every success return is clipResults(MinTTL, table) while every error return carries a nil slice; (R03.4) each protocol entry point hands ToHops the same parameters it gave the engine and returns ToHops' slice as Hops unmodified; (R03.5) validateProbe accepts only non-nil probes with MinTTL <= TTL <= MaxTTL and ToHops numbers entries MinTTL+i. The arithmetic inside clipResults (lowest destination wins, non-empty, consecutive) needs a relational argument and is not decided.", runC03)
+	register("C03", "Decides the structural part of path shape for both engines and all first/last TTL pairs: (R03.1) every store into the engine's slot table writes a ReceiveProbe result that passed validateProbe (or travelled the retryable edge, on which every module driver returns a nil response by C01 R01.7) at the index probe.TTL of that same value; (R03.2) the table length is int(MaxTTL)+1 computed in int; (R03.3) validate() precedes everything and every success return is clipResults(MinTTL, table) while every error return carries a nil slice; (R03.4) each protocol entry point hands ToHops the same parameters it gave the engine and returns ToHops' slice as Hops unmodified; (R03.5) validateProbe accepts only non-nil probes with MinTTL <= TTL <= MaxTTL and ToHops numbers entries MinTTL+i. The arithmetic inside clipResults (lowest destination wins, non-empty, consecutive) needs a relational argument and is not decided. (R03.4 also) ToHops receives the engine's slice as a whole (result #0, or the Hops field of the ICMP/SACK helper's result), not a re-slice of it.", runC03)
 	darwinRules["C03"] = runC03
 }
 
